@@ -243,6 +243,13 @@ func (x *Exec) loadRoot(st *State, l *Loc) Term {
 	case lElem:
 		return sel(sel(x.heapGet(st, l.Key, x.heapSort[l.Key]), l.Region), l.Index)
 	case lGlobal:
+		// a package-level variable that is never assigned after init and whose initialiser can be evaluated
+		// has that value (the same rule as for a direct load of the variable)
+		if g := x.eng.globals[strings.TrimPrefix(l.Key, "G:")]; g != nil && x.top != nil && x.top.Name() != "init" {
+			if v, ok := x.eng.globalValue(x, g); ok && v.S != "" {
+				return v.S
+			}
+		}
 		return x.heapGet(st, l.Key, x.heapSort[l.Key])
 	}
 	panic("bad loc")
